@@ -145,6 +145,7 @@ impl Prop for C01 {
             ops: with_api,
             stream: None,
             config: desc,
+            hidden_faults: take_hidden_faults(),
         }
     }
 
@@ -265,9 +266,7 @@ impl Prop for C01 {
             }
             if let Some(st) = st.as_deref_mut() {
                 if build == Build::Std {
-                    for a in &abs {
-                        st.histories.insert(a.history_hash());
-                    }
+                    st.histories.insert(combined_history(&abs));
                 }
             }
         }
